@@ -192,6 +192,71 @@ static dig_t vh_dig_tok(const char *tok) {
 }
 #endif
 
+
+#ifdef WITH_FP
+/* raw projection of a prime-field element: its RLC_FP_DIGS digits (Montgomery form when mont=1) */
+static void vh_fp_raw(const fp_t a) { vh_digs_raw(a, RLC_FP_DIGS); }
+static void vh_fp(const char *k, const fp_t a) { vh_digs(k, a, RLC_FP_DIGS); }
+/* field header: prime (LE bytes), digit bytes, digits, Montgomery flag */
+static void vh_fp_hdr(void) {
+	vh_digs("p", fp_prime_get(), RLC_FP_DIGS);
+	vh_int("w", (long)sizeof(dig_t));
+	vh_int("fd", (long)RLC_FP_DIGS);
+#if FP_RDC == MONTY
+	vh_int("mont", 1);
+#else
+	vh_int("mont", 0);
+#endif
+}
+/* set from a token: "r:<hex>" raw digits as given, otherwise the VALUE <hex> (converted by the library;
+ * the spec reads the raw digits back, so a faulty conversion cannot corrupt a case silently) */
+static void vh_fp_set(fp_t a, const char *tok) {
+	bn_t t;
+	bn_null(t);
+	if (tok[0] == 'r' && tok[1] == ':') {
+		size_t i;
+		bn_new(t);
+		vh_bn_set(t, tok + 2);
+		for (i = 0; i < RLC_FP_DIGS; i++) a[i] = (i < t->used) ? t->dp[i] : 0;
+		bn_free(t);
+		return;
+	}
+	bn_new(t);
+	vh_bn_set(t, tok);
+	if (bn_is_zero(t)) fp_zero(a); else fp_prime_conv(a, t);
+	bn_free(t);
+}
+#endif
+
+#ifdef WITH_EP
+/* raw projection of a prime-curve point: raw coordinates and the coordinate-system tag */
+static void vh_ep_raw(const ep_t p) {
+	fputs("{\"x\":", vh_out); vh_fp_raw(p->x);
+	fputs(",\"y\":", vh_out); vh_fp_raw(p->y);
+	fputs(",\"z\":", vh_out); vh_fp_raw(p->z);
+	fprintf(vh_out, ",\"c\":%d}", p->coord);
+}
+static void vh_ep(const char *k, const ep_t p) {
+	fprintf(vh_out, ",\"%s\":", k);
+	vh_ep_raw(p);
+}
+/* "inf" | "<hexx>,<hexy>" affine | "<hexx>,<hexy>,<hexz>,<coord>" raw-valued projective */
+static void vh_ep_set(ep_t p, char *tok) {
+	char *x, *y, *z, *c;
+	if (strcmp(tok, "inf") == 0) { ep_set_infty(p); return; }
+	x = tok; y = strchr(x, ','); *y++ = 0;
+	z = strchr(y, ',');
+	if (z) { *z++ = 0; c = strchr(z, ','); *c++ = 0; }
+	vh_fp_set(p->x, x); vh_fp_set(p->y, y);
+	if (z) { vh_fp_set(p->z, z); p->coord = atoi(c); }
+	else { fp_set_dig(p->z, 1); p->coord = BASIC; }
+}
+static int vh_ep_same(const ep_t a, const ep_t b) {
+	return memcmp(a->x, b->x, sizeof(dig_t) * RLC_FP_DIGS) == 0 && memcmp(a->y, b->y, sizeof(dig_t) * RLC_FP_DIGS) == 0
+		&& memcmp(a->z, b->z, sizeof(dig_t) * RLC_FP_DIGS) == 0 && a->coord == b->coord;
+}
+#endif
+
 /* run a statement under the library's own try/catch and record the error:
  * 0 = none, otherwise the thrown number (ERR_MAX = caught, number not propagated) */
 #define VH_TRY(err, stmt)                                                   \
